@@ -162,6 +162,7 @@ type ExploreStats struct {
 	Terms        int
 	AssumedAway  int64
 	SymPaths     int64
+	Queries2     int64 // queries decided by the second solver (cvc5)
 }
 
 func (e *Explorer) push(items ...WorkItem) {
@@ -241,8 +242,18 @@ func (e *Explorer) Run() (*ExploreStats, error) {
 				e.Results.Queries += int64(s.Queries)
 				e.Results.QSat += int64(s.NSat)
 				e.Results.QUnsat += int64(s.NUnsat)
-				e.Results.QUnknown += int64(s.NUnk)
 				e.Results.SolverTime += s.Time
+				if s2 := in.solver2; s2 != nil {
+					e.Results.Queries2 += int64(s2.Queries)
+					e.Results.QSat += int64(s2.NSat)
+					e.Results.QUnsat += int64(s2.NUnsat)
+					e.Results.QUnknown += int64(s2.NUnk)
+					e.Results.SolverTime += s2.Time
+					// queries z3 could not decide were re-asked; count them once
+					e.Results.Queries += int64(s2.Queries) - int64(s.NUnk)
+				} else {
+					e.Results.QUnknown += int64(s.NUnk)
+				}
 				e.Results.Terms += in.st.Size()
 				e.Results.Obligations += in.obligations
 				e.Results.Discharged += in.discharged
@@ -603,14 +614,45 @@ func (in *Interp) queryWith(seed, c *term.T) (smt.Result, term.Model) {
 	if !c.IsTrue() {
 		asserts = append(asserts, c)
 	}
-	r, m, err := in.solver.Check(asserts, vars)
-	if err != nil {
-		in.solverTrouble(err)
-	}
+	r, m := in.check(asserts, vars)
 	if len(in.qcache) > 2000000 {
 		in.qcache = map[string]qres{}
 	}
 	in.qcache[key] = qres{r, m}
+	return r, m
+}
+
+// check runs the query on z3, or on cvc5 when it contains floating-point operations (z3 4.8.12 times out on
+// 64-bit to_sbv/to_fp/roundToIntegral combinations that cvc5 decides in seconds) or when z3 answers unknown.
+func (in *Interp) check(asserts []*term.T, vars []*term.T) (smt.Result, term.Model) {
+	fp := false
+	for _, a := range asserts {
+		if a.HasFP {
+			fp = true
+			break
+		}
+	}
+	if !fp {
+		r, m, err := in.solver.Check(asserts, vars)
+		if err != nil {
+			in.solverTrouble(err)
+		}
+		if r != smt.Unknown {
+			return r, m
+		}
+	}
+	if in.solver2 == nil {
+		s2, err := smt.New("cvc5", in.cfg.TimeoutMs)
+		if err != nil {
+			in.solverTrouble(err)
+			return smt.Unknown, nil
+		}
+		in.solver2 = s2
+	}
+	r, m, err := in.solver2.Check(asserts, vars)
+	if err != nil {
+		in.solverTrouble(err)
+	}
 	return r, m
 }
 
@@ -628,10 +670,7 @@ func mergeModel(base, over term.Model) term.Model {
 // solveModel (re)computes a model of the whole current PC. Returns false if the PC is unsatisfiable.
 func (in *Interp) solveModel() bool {
 	p := in.path
-	r, m, err := in.solver.Check(p.PC, in.inputVars())
-	if err != nil {
-		in.solverTrouble(err)
-	}
+	r, m := in.check(p.PC, in.inputVars())
 	switch r {
 	case smt.Sat:
 		p.Model = m
